@@ -260,8 +260,7 @@ def run(chk, replay=None):
     if not chk.quick:
         pairs += [("Write10", "Read10"), ("ExchangeMedium", "WriteSame16")]
     if not chk.quick:
-        pairs += [("ReadCd", "Read12"), ("GetLBAStatus", "SynchronizeCache10"), ("PersistentReserveOut", "ModeSense10"),
-                  ("ReadElementStatus", "MoveMedium"), ("ReportTargetPortGroups", "ReadCapacity16")]
+        pairs += [("ReadCd", "Read12"), ("PersistentReserveOut", "ModeSense10")]
     nsched = 0
     for a, b in pairs:
         if a not in refs or b not in refs:
@@ -269,7 +268,7 @@ def run(chk, replay=None):
         run_ = Runner([program(refs[a]), program(refs[b])])
         (n1, iso1), (n2, iso2) = run_.measure(0), run_.measure(1)
         P = "1" if chk.quick else "2"
-        grid = "3" if chk.quick else "4"
+        grid = "3" if chk.quick else "6"
         rs = tlc.run("MC_Sched", "MC_Sched.cfg", workers=8, timeout=1200, name="c09sched",
                      env={"N1": str(n1), "N2": str(n2), "P": P, "GRID": grid})
         if not rs.ok:
